@@ -19,12 +19,22 @@ PROPS = {
                 confluent=True),
     "C05": dict(benches=["chain", "query", "saturate", "volume", "hier3"], caps=dict(quick=[1], thorough=[1, 2]),
                 invariants=[]),
-    "C06": dict(benches=["qloop", "qself", "saturate2", "saturate", "orphan", "hier", "qwrap0", "qwrap1", "qwrap2",
+    "C06": dict(benches=["qloop", "qself", "saturate2", "saturate", "orphan", "orphan2", "hier", "qwrap0", "qwrap1", "qwrap2",
                          "qwrap3"],
                 caps=dict(quick=[1, 2, 3], thorough=[1, 2, 3, 4, 5, 6, 7]), invariants=["QuiescentMeansDone"]),
     "C14": dict(benches=["query", "query6"], caps=dict(quick=[1, 2], thorough=[1, 2, 4]), invariants=[]),
     "C16": dict(benches=["hier", "hier3", "hpanic_P", "hpanic_P_a", "hpanic_P_b", "hpanic_P_a_x", "hpanic_Q"],
                 caps=dict(quick=[2], thorough=[1, 2, 3]), invariants=["InitOnceFirst"]),
+}
+# part of C11 (failure attribution): the model named in a Panic raised at each position of a model hierarchy
+C11_ATTRIBUTION = dict(benches=["hpanic_P", "hpanic_P_a", "hpanic_P_b", "hpanic_P_a_x", "hpanic_Q"],
+                       caps=dict(quick=[2], thorough=[1, 2]), invariants=[])
+
+
+# executor-level half of C04 / C06: invariants of Pool.tla checked by TLC and on traces of the real thread pool
+POOL_INVARIANTS = {
+    "C04": ["OkMeansQuiescent", "NoStrandedRun", "BusyIsActive", "OnePlace", "SearchingSane", "DeactAssert"],
+    "C06": ["CountExact", "OkMeansQuiescent"],
 }
 
 
@@ -86,6 +96,22 @@ def describe(rej):
     return f"{rej.reason} at event {rej.index}: {json.dumps(rej.event)[:300]}"
 
 
+def task_part(chk, rng, thorough, wd):
+    """Task-level half of C05: a model is one task, and a task is never polled by two threads at once (Task.tla, Safe);
+    TLC explores the interleavings of the handle operations and real threads racing on the handles of one task are
+    validated against Task_Trace.tla."""
+    import check_task
+    import taskdefs
+    for name in ("pend_ready", "selfwake") if not thorough else sorted(taskdefs.SCRIPTS):
+        script = taskdefs.SCRIPTS[name]
+        mod, cfg = taskdefs.write_mc(f"c05_{name}", script, ["t1", "t2"], 6, wd, with_promise=False)
+        res = run_tlc(mod, cfg, wd, workers=12, timeout=3000)
+        chk.add_tlc(f"Task[{name}, 2 threads, 6 ops]", res)
+        if not res.ok:
+            raise ToolError(f"Task instance {name} violates {res.violation}")
+    check_task.conc_part(chk, rng, thorough, wd, prefix="c05conc")
+
+
 def clones_part(chk, thorough, wd):
     """Second half of C14: clones of a port share one connection list (PortClones.tla)."""
     import subprocess
@@ -124,11 +150,15 @@ def clones_part(chk, thorough, wd):
 
 
 def run(prop, tier, seed):
-    cfg = PROPS[prop]
     chk = Check(prop, tier, seed)
     rng = random.Random(seed)
+    return bench_loop(chk, prop, PROPS[prop], tier, rng, os.path.join(OUT, f"{prop}_{tier}"), finish=True)
+
+
+def bench_loop(chk, prop, cfg, tier, rng, wd, finish=False):
+    """TLC on every (bench, capacity) of cfg, schedule enumeration and free runs on the real crate, trace validation.
+    Also called by the C11 check for the attribution of panics in model hierarchies."""
     thorough = tier == "thorough"
-    wd = os.path.join(OUT, f"{prop}_{tier}")
     dfs_cap = 6000 if thorough else 400
     nrand = 1500 if thorough else 150
     nfree = 400 if thorough else 60
@@ -203,12 +233,23 @@ def run(prop, tier, seed):
                         break
             t = allruns[len(allruns) // 3]
             chk.sample(dict(source=t[0].get("src"), bench=b["name"], header=t[0], trace=t[1:16]))
+    if not finish:
+        return all_exhausted
     if prop == "C14":
         clones_part(chk, thorough, wd)
+    if prop == "C05":
+        task_part(chk, rng, thorough, wd)
+    if prop in POOL_INVARIANTS:
+        import check_pool
+        check_pool.pool_part(chk, rng, thorough, wd, POOL_INVARIANTS[prop])
+    if prop == "C06":
+        # the in-flight message count at the level of one channel: Channel.tla (CountExact), histories replayed
+        import check_chan
+        check_chan.channel_part(chk, thorough, wd)
     chk.exhaustive = all_exhausted
     chk.assumptions = TRUSTED + [
-        "wake-ups, the task state machine and the pool protocol are not modelled at this layer (Channel/Task/Pool "
-        "specifications); here a lost wake-up shows as a run that stalls where the specification does not",
+        "wake-ups are not modelled at this layer; here a lost wake-up shows as a run that stalls where the specification "
+        "does not (the task state machine is Task.tla, the thread pool's protocol Pool.tla)",
         "multi-threaded runs are free-running (seeded delays at hook points), i.e. sampled, not enumerated",
     ]
     return chk.finish(rule="TLC explores every schedule of each bench at channel-operation granularity and checks the "
